@@ -1847,6 +1847,7 @@ class Connection(utils.CompositeEventEmitter):
         self.encryption = 0
         self.encryption_key_size = 0
         self.authenticated = False
+        self.stored_ltk_authenticated = False  # LE: the stored LTK used to encrypt
         self.sc = False
         self.att_mtu = att.ATT_DEFAULT_MTU
         self.data_length = self.LeDataLength(*DEVICE_DEFAULT_DATA_LENGTH)
@@ -4876,14 +4877,14 @@ class Device(utils.CompositeEventEmitter):
             keys = await self.keystore.get(str(connection.peer_address))
             if keys is not None:
                 logger.debug('found keys in the key store')
-                if keys.ltk:
-                    return keys.ltk.value
-
-                if connection.role == hci.Role.CENTRAL and keys.ltk_central:
-                    return keys.ltk_central.value
-
-                if connection.role == hci.Role.PERIPHERAL and keys.ltk_peripheral:
-                    return keys.ltk_peripheral.value
+                key = keys.ltk
+                if not key and connection.role == hci.Role.CENTRAL:
+                    key = keys.ltk_central
+                if not key and connection.role == hci.Role.PERIPHERAL:
+                    key = keys.ltk_peripheral
+                if key:
+                    connection.stored_ltk_authenticated = key.authenticated
+                    return key.value
         return None
 
     async def get_link_key(self, address: hci.Address) -> bytes | None:
@@ -4960,10 +4961,14 @@ class Device(utils.CompositeEventEmitter):
                     ltk = keys.ltk.value
                     rand = bytes(8)
                     ediv = 0
+                    connection.stored_ltk_authenticated = keys.ltk.authenticated
                 elif keys.ltk_central is not None:
                     ltk = keys.ltk_central.value
                     rand = keys.ltk_central.rand or b''
                     ediv = keys.ltk_central.ediv or 0
+                    connection.stored_ltk_authenticated = (
+                        keys.ltk_central.authenticated
+                    )
                 else:
                     raise InvalidOperationError('no LTK found for peer')
 
@@ -6679,6 +6684,7 @@ class Device(utils.CompositeEventEmitter):
             not connection.authenticated
             and connection.transport == PhysicalTransport.LE
             and encryption == hci.HCI_Encryption_Change_Event.Enabled.E0_OR_AES_CCM
+            and connection.stored_ltk_authenticated
         ):
             connection.authenticated = True
             connection.sc = True
